@@ -35,6 +35,7 @@ def prop(pid, **kw):
 
 # ----------------------------------------------------------------------------- C05
 prop("C05",
+     fuzz=dict(prop=5, workers=8, seconds=120),
      units=lambda tier: [Unit("c05", "c05.cpp", SHIPPED, cases=scale(tier, 2500, 60000), shards=16)],
      level="exploration",
      rule=("structured CTR programs (init; optional early set_counter; key/tweak set-up; 1-3 segments of "
@@ -102,6 +103,7 @@ prop("C04",
 
 # ----------------------------------------------------------------------------- C06
 prop("C06",
+     fuzz=dict(prop=6, workers=8, seconds=120),
      units=lambda tier: [Unit("c06", "c06.cpp", SHIPPED, cases=scale(tier, 2500, 80000), shards=16)],
      level="exploration",
      rule=("unconstrained API histories (3-40 calls: init, valid and invalid key / tweaked-key / tweak / counter calls, data "
@@ -128,6 +130,7 @@ def asan_unit(name, harness, cases, args=(), shards=16, **kw):
     return Unit(name, harness, ASAN, cases=cases, shards=shards, link_flags=["-fsanitize=address,undefined"], env=ASAN_ENV, args=list(args), **kw)
 
 prop("C14",
+     fuzz=dict(prop=14, workers=8, seconds=120),
      units=lambda tier: [Unit("c14", "c14.cpp", SHIPPED, cases=scale(tier, 2000, 60000), shards=12),
                          asan_unit("c14-asan", "c14.cpp", scale(tier, 700, 20000), args=["--heap", "1"], shards=4 if tier == "quick" else 16)],
      level="exploration",
@@ -159,6 +162,7 @@ def mon_units(name, src, tier, q, t, asan_share=0.3, args=()):
                  shards=4 if tier == "quick" else 16, link_flags=["-fsanitize=address,undefined"], env=ASAN_ENV, args=list(args))]
 
 prop("C15",
+     fuzz=dict(prop=15, workers=8, seconds=120),
      units=lambda tier: mon_units("c15", "c15.cpp", tier, 2000, 60000),
      level="exploration",
      rule=("multi-object life-cycle histories (1-6 slots of the six object kinds on every back end, 4-60 calls): init, key / "
@@ -593,7 +597,7 @@ def run(pid, tier, seed, replay):
     if replay:
         return runner.replay_only(pid, units, replay)
     return runner.run_units(pid, units, tier, seed, p["level"], p["rule"], p["assumptions"],
-                            known=known_for(pid), extra_cov=p.get("extra_cov"), post_cov=p.get("post_cov"))
+                            known=known_for(pid), extra_cov=p.get("extra_cov"), post_cov=p.get("post_cov"), fuzz=p.get("fuzz"))
 
 
 REGISTRY = {pid: run for pid in PROPS}
